@@ -275,6 +275,9 @@ struct World {
     ambiguous: bool,
 }
 
+/// `cliw run --order alt`: the second fair schedule of the wake-driven driver (C02, part wake-alt)
+pub static ALT_ORDER: std::sync::atomic::AtomicBool = std::sync::atomic::AtomicBool::new(false);
+
 fn outcome(r: &Result<u64, RpcError>) -> String {
     match r {
         Ok(v) => format!("OReply {v}"),
@@ -550,7 +553,11 @@ impl World {
                 return "WFuel".into();
             }
             let mut any = false;
-            if self.dispatch.is_some() && !self.finished && self.dwaker.woken() {
+            let alt = ALT_ORDER.load(std::sync::atomic::Ordering::Relaxed);
+            // phase 0 = the dispatch, phase 1 = the calls; the alternative schedule runs the calls first
+            // (in descending index order) and the dispatch last
+            for phase in if alt { [1, 0] } else { [0, 1] } {
+            if phase == 0 && self.dispatch.is_some() && !self.finished && self.dwaker.woken() {
                 any = true;
                 let o = self.poll_dispatch();
                 for x in &o {
@@ -572,7 +579,9 @@ impl World {
                     }
                 }
             }
-            for i in 0..self.calls.len() {
+            let n = self.calls.len();
+            for j in 0..(if phase == 1 { n } else { 0 }) {
+                let i = if alt { n - 1 - j } else { j };
                 let woken = self.calls[i].fut.is_some() && self.calls[i].waker.woken();
                 if woken {
                     any = true;
@@ -584,6 +593,7 @@ impl World {
                         }
                     }
                 }
+            }
             }
             if !any {
                 break;
